@@ -196,8 +196,25 @@ func init() {
 		}
 		return fr.i.newWrapError(sprintf(fr, argString(args[1]), args[2].([]value))+": "+fr.i.errorMsg(fr, ia), ia)
 	}
-	e["cosmossdk.io/errors.stackTrace"] = nil
-	delete(e, "cosmossdk.io/errors.stackTrace")
+	// errorsmod.Register without the process-global registry (packages of the repository
+	// are re-initialised per path; the registry would reject the second registration)
+	regErr := func(fr *frame, args []value) value {
+		t := fr.i.errorsPkgType("cosmossdk.io/errors", "Error")
+		var cell value = zero(t)
+		s := cell.(structure)
+		s[0] = args[0]
+		s[1] = args[1]
+		desc := args[2]
+		grpc := value(uint32(2)) // codes.Unknown
+		if len(args) == 4 {
+			grpc, desc = args[2], args[3]
+		}
+		s[2] = desc
+		s[3] = grpc
+		return &cell
+	}
+	e["cosmossdk.io/errors.Register"] = regErr
+	e["cosmossdk.io/errors.RegisterWithGRPCCode"] = regErr
 
 	// ---- sync / atomic ------------------------------------------------------
 	for _, n := range []string{
